@@ -1,4 +1,5 @@
 """C13 — geometric measures obey their defining formulas and transformation laws."""
+import itertools
 import numpy as np
 
 from .. import repo, core, gen, wire, extract, corr_fem
@@ -52,7 +53,7 @@ class Check(BaseCheck):
         fails = []
         n, size = (30, "small") if self.quick else (500, "large")
         rng = gen.rng_for(self.seed, "c13")
-        for c in gen.tria_stream(self.seed + 51, n, size):
+        for c in itertools.chain(gen.int_cases(), gen.tria_stream(self.seed + 51, n, size)):
             v, t = c["v"], c["t"]
             if len(np.unique(t)) != len(v):
                 continue
@@ -128,7 +129,7 @@ class Check(BaseCheck):
 
     # ---- oracle
     def search_cases(self):
-        for c in gen.tria_stream(self.seed + 53, 40 if self.quick else 300, "small"):
+        for c in itertools.chain(gen.int_cases(), gen.tria_stream(self.seed + 53, 40 if self.quick else 300, "small")):
             if len(np.unique(c["t"])) == len(c["v"]):
                 yield dict(v=c["v"], t=c["t"], name=c["name"], pres=c.get("pres"), vdtype=c.get("vdtype"))
 
